@@ -506,6 +506,21 @@ func (b *c21Built) writeBlock(w *chain.World, bb c21BuiltBlk) error {
 	return err
 }
 
+// c21Quiesce waits until the goroutines started since the count n0 was taken are gone (goleveldb panics when a read races
+// with Close, and both the dead process and Center.dig leave short-lived reader goroutines behind). Goroutines of the
+// dead process that are blocked for good never read again, so after the bound the close goes ahead anyway.
+func c21Quiesce(n0 int) bool {
+	for i := 0; i < 5000; i++ {
+		if runtime.NumGoroutine() <= n0 {
+			return true
+		}
+
+		time.Sleep(200 * time.Microsecond)
+	}
+
+	return false
+}
+
 func c21Guarded(t ev.TB, what string, f func() error) error {
 	ch := make(chan error, 1)
 
@@ -542,6 +557,7 @@ func c21Build(t ev.TB, ctl *c21Ctl, scn c21Scn) *c21Built {
 	b := &c21Built{Scn: scn}
 
 	_, st := c21NewStorage(t)
+	n0 := runtime.NumGoroutine()
 
 	w, err := chain.New(chain.Opts{NSuffrage: scn.NSuf, Storage: st})
 	if err != nil {
@@ -549,6 +565,7 @@ func c21Build(t ev.TB, ctl *c21Ctl, scn c21Scn) *c21Built {
 	}
 
 	defer func() {
+		c21Quiesce(n0)
 		w.Close()
 		_ = st.Close()
 	}()
@@ -666,6 +683,13 @@ func c21Build(t ev.TB, ctl *c21Ctl, scn c21Scn) *c21Built {
 		}
 	}
 
+	// states of cancelled block writes were never committed: they must never show up
+	for _, g := range []int{scn.H.Garbage, scn.Next.Garbage} {
+		for i := 0; i < g; i++ {
+			km[fmt.Sprintf("c21/%05d", 70000+i)] = struct{}{}
+		}
+	}
+
 	for k := range km {
 		b.Keys = append(b.Keys, k)
 	}
@@ -676,6 +700,8 @@ func c21Build(t ev.TB, ctl *c21Ctl, scn c21Scn) *c21Built {
 	pw, _, cleanup := b.restore(t, b.S1)
 	defer cleanup()
 
+	pn0 := runtime.NumGoroutine()
+
 	ctl.arm(pw.St, c21Hold, 0)
 
 	done := make(chan struct{})
@@ -685,7 +711,7 @@ func c21Build(t ev.TB, ctl *c21Ctl, scn c21Scn) *c21Built {
 		var g []int
 
 		for {
-			n := ctl.holdGroup(0, 60*time.Millisecond, done, func(int) bool { return true }, false)
+			n := ctl.holdGroup(0, 100*time.Millisecond, done, func(int) bool { return true }, false)
 			if n == 0 {
 				break
 			}
@@ -707,6 +733,8 @@ func c21Build(t ev.TB, ctl *c21Ctl, scn c21Scn) *c21Built {
 	if err != nil {
 		t.Fatalf("harness: permanent merge of %s: %+v", scn, err)
 	}
+
+	c21Quiesce(pn0)
 
 	_ = pw.St.Close()
 
@@ -875,7 +903,13 @@ func (b *c21Built) verify(t ev.TB, report func(sig, msg string), phase, desc str
 		t.Fatalf("harness: reopen goleveldb: %v", err)
 	}
 
-	defer func() { _ = st2.Close() }()
+	n0 := runtime.NumGoroutine()
+
+	defer func() {
+		c21Quiesce(n0)
+
+		_ = st2.Close()
+	}()
 
 	res.Landing = c21Landing(st2)
 
@@ -1121,8 +1155,8 @@ func (b *c21Built) features() []string {
 		fs = append(fs, "feat:cancelled-write-leftover")
 	}
 
-	if len(b.G) >= 3 {
-		fs = append(fs, "feat:backlog>=3-temps")
+	if int64(len(b.Model)-1)-b.PermLast.Int64() >= 4 {
+		fs = append(fs, "feat:backlog>=3-temps-to-merge")
 	}
 
 	for _, g := range b.G {
@@ -1159,10 +1193,14 @@ func (b *c21Built) crashWrite(t ev.TB, r *ev.Rec, ctl *c21Ctl, which, n int) c21
 
 	height := w.NextHeight()
 
+	n0 := runtime.NumGoroutine()
+
 	ctl.arm(w.St, c21Budget, n)
 	err := c21Guarded(t, "block write", func() error { return b.writeBlock(w, bb) })
 	seen, log := ctl.counted()
 	ctl.setMode(c21Dead)
+
+	quiet := c21Quiesce(n0)
 
 	if n >= total && err != nil {
 		t.Fatalf("harness: %s block %d with the full budget %d failed: %+v (writes %v)", b.Scn, height, n, err, log)
@@ -1185,14 +1223,14 @@ func (b *c21Built) crashWrite(t ev.TB, r *ev.Rec, ctl *c21Ctl, which, n int) c21
 	}
 
 	classes := append(b.features(), "phase:"+phase, c21Pos(n, total), outcome)
-	if err == nil && n < total {
-		classes = append(classes, "note:write-error-swallowed")
+	if !quiet {
+		classes = append(classes, "note:dead-process-goroutines-left")
 	}
 
 	r.Case(fmt.Sprintf("%s|%s|%d", b.Scn, phase, n), n > 0 && n < total, classes...)
 
 	if n > 0 && n < total && r.WantSample() {
-		r.Sample(map[string]any{"scenario": b.Scn.String(), "phase": phase, "height": height.Int64(), "writes_of_phase": log, "writes_allowed": n,
+		r.Sample(map[string]any{"scenario": b.Scn.String(), "phase": phase, "height": height.Int64(), "writes_of_phase": map[int]any{0: b.LogH, 1: b.LogNext}[which], "writes_allowed": n,
 			"last_height_after_reopen": res.L.Int64()})
 	}
 
@@ -1217,6 +1255,8 @@ func (b *c21Built) crashPerm(t ev.TB, r *ev.Rec, ctl *c21Ctl, stats *c21Stats, g
 
 	top := w.Last().Manifest().Height()
 
+	n0 := runtime.NumGoroutine()
+
 	ctl.arm(w.St, c21Hold, start)
 
 	done := make(chan struct{})
@@ -1233,6 +1273,8 @@ func (b *c21Built) crashPerm(t ev.TB, r *ev.Rec, ctl *c21Ctl, stats *c21Stats, g
 	held := <-nch
 	_, log := ctl.counted()
 	ctl.setMode(c21Dead)
+
+	quiet := c21Quiesce(n0)
 
 	_ = w.St.Close()
 
@@ -1268,6 +1310,10 @@ func (b *c21Built) crashPerm(t ev.TB, r *ev.Rec, ctl *c21Ctl, stats *c21Stats, g
 	classes := append(b.features(), "phase:permanent-merge", mk, c21Pos(applied, total))
 	if held != b.G[group] {
 		classes = append(classes, "note:hold-guard-hit")
+	}
+
+	if !quiet {
+		classes = append(classes, "note:dead-process-goroutines-left")
 	}
 
 	nontrivial := applied > 0 && applied < total
@@ -1332,9 +1378,13 @@ func c21RunScenario(t ev.TB, r *ev.Rec, ctl *c21Ctl, stats *c21Stats, scn c21Scn
 	// the crash-free run itself must satisfy the oracle (otherwise the model or a read is not usable for this property)
 	{
 		w, str, cleanup := b.restore(t, b.S1)
+		n0 := runtime.NumGoroutine()
+
 		if err := w.DB.MergeAllPermanent(); err != nil {
 			t.Fatalf("harness: %+v", err)
 		}
+
+		c21Quiesce(n0)
 
 		_ = w.St.Close()
 		cleanup()
@@ -1422,14 +1472,16 @@ func c21Fixed(thorough bool) []c21Scn {
 			H:     c21Blk{Ops: []c21Op{join, policy, c21F(335, 100)}}, Next: c21Blk{Ops: []c21Op{c21F(5, 0)}}},
 	}
 
+	scns = append(scns,
+		c21Scn{Name: "large3", NSuf: 3, Worker: 8,
+			Prior: []c21Blk{{Ops: []c21Op{c21F(100, 0)}}},
+			H:     c21Blk{Ops: []c21Op{c21F(700, 50)}}, Next: c21Blk{Ops: []c21Op{c21F(3, 0)}}})
+
 	if !thorough {
 		return scns
 	}
 
 	scns = append(scns,
-		c21Scn{Name: "large3", NSuf: 3, Worker: 8,
-			Prior: []c21Blk{{Ops: []c21Op{c21F(100, 0)}}},
-			H:     c21Blk{Ops: []c21Op{c21F(700, 50)}}, Next: c21Blk{Ops: []c21Op{c21F(3, 0)}}},
 		c21Scn{Name: "large4", NSuf: 4, Worker: 8,
 			Prior: []c21Blk{{Ops: []c21Op{c21F(400, 0)}, Merge: true}},
 			H:     c21Blk{Ops: []c21Op{c21F(500, 200), c21F(500, 700)}}, Next: c21Blk{Ops: []c21Op{c21F(340, 0)}}},
@@ -1491,6 +1543,28 @@ func c21GenBlk(rt *rapid.T, label string, sizes []int, allowJoin bool) c21Blk {
 	}
 
 	blk.Ops = ops
+
+	// a block whose operations all stay out of state makes the proposal processor fail ("empty nodes"): an empty filler
+	// only rides along with a non-empty one
+	nonempty := false
+
+	for _, o := range blk.Ops {
+		if o.Kind == "filler" && o.K > 0 {
+			nonempty = true
+		}
+	}
+
+	if !nonempty {
+		ops = blk.Ops[:0]
+
+		for _, o := range blk.Ops {
+			if o.Kind != "filler" {
+				ops = append(ops, o)
+			}
+		}
+
+		blk.Ops = ops
+	}
 
 	// fillers of one block never share a key
 	end := 0
@@ -1562,6 +1636,10 @@ func TestC21(t *testing.T) {
 
 	// ---- A. fixed scenarios, every crash point (sharded by crash point)
 	t.Run("fixed", func(t *testing.T) {
+		if os.Getenv("VERIF_RAPID_FAILFILE") != "" {
+			return // replay of a drawn scenario
+		}
+
 		for si, scn := range c21Fixed(r.Thorough()) {
 			si := si
 
